@@ -34,7 +34,7 @@ LEarned(st) == [a \in Addr |-> IF a \in DOMAIN st.earned THEN st.earned[a] ELSE 
 
 TraceInit ==
     /\ l = 1 /\ ph = "act"
-    /\ par = [period |-> 1, create |-> 2]
+    /\ par = [period |-> 1, create |-> 2, fx |-> 0]
     /\ h = 0 /\ now = 0 /\ fee = 0 /\ current = 0 /\ tr = NoTr /\ gcount = 0
     /\ grp = [g \in Groups |-> NoGrp] /\ pendG = <<>> /\ lastExpG = 0 /\ bm = {}
     /\ canSign = [g \in Groups |-> TRUE] /\ sigc = 0 /\ sig = [id \in Sigs |-> NoSig]
@@ -42,7 +42,7 @@ TraceInit ==
     /\ bal = [p \in Payer |-> 0] /\ escrow = 0 /\ earned = [a \in Addr |-> 0] /\ owed = 0 /\ out = "init"
 
 ResetVars(st) ==
-    /\ par' = [period |-> st.par.period, create |-> st.par.create]
+    /\ par' = [period |-> st.par.period, create |-> st.par.create, fx |-> st.par.fx]
     /\ h' = st.h /\ now' = st.now /\ fee' = st.fee /\ current' = st.current /\ tr' = LTr(st)
     /\ gcount' = st.gcount /\ grp' = [g \in Groups |-> LGrp(st, g)]
     /\ pendG' = st.pendG /\ lastExpG' = st.lastExpG /\ bm' = ToSet(st.bm)
@@ -76,7 +76,7 @@ Act ==
               [] Line.e = "Request"  -> TRequest
               [] Line.e = "SignAll"  -> TSignAll
               [] Line.e = "EndBlock" -> TEndBlock
-              [] Line.e \in {"SetCanSign", "Env", "SetFee"} -> UNCHANGED vars
+              [] Line.e \in {"SetCanSign", "Env", "SetFee", "SetFx"} -> UNCHANGED vars
 
 Bind(name, cur, nxt, obs) == IF name \in Checked THEN cur = obs /\ nxt = cur ELSE nxt = obs
 
@@ -86,6 +86,7 @@ Sync ==
     /\ LET st == Line.s IN
         /\ st.gcount <= MaxG /\ st.sigc <= MaxSig /\ st.bsigc <= MaxSig
         /\ h' = st.h /\ now' = st.now /\ fee' = st.fee
+        /\ par' = [par EXCEPT !.fx = st.par.fx]                  \* environment (SetFx)
         /\ ("clock" \in Checked) => (h = st.h /\ now = st.now)
         /\ canSign' = [g \in Groups |-> LCan(st, g)]
         /\ Bind("current", current, current', st.current)
@@ -103,7 +104,7 @@ Sync ==
         /\ Bind("escrow", escrow, escrow', st.escrow)
         /\ Bind("earned", earned, earned', LEarned(st))
         /\ owed' = IF "escrow" \in Checked THEN owed ELSE st.escrow
-    /\ UNCHANGED <<out, par>>
+    /\ UNCHANGED out
 
 TraceNext == Act \/ Sync
 TraceSpec == TraceInit /\ [][TraceNext]_tvars
